@@ -480,7 +480,10 @@ def corrections(c, cores):
                 if m:
                     thr.append((t["cond"], m.group(1).strip()))
         for x, tv in thr:
-            base_ = re.sub(r"\.u?idx\(\)$", "", tv.strip("()"))
+            base_ = tv.strip()
+            while base_.startswith("(") and base_.endswith(")") and split_balanced(base_):
+                base_ = base_[1:-1].strip()
+            base_ = re.sub(r"\.u?idx\(\)$", "", base_)
             ok = base_ == E
             (ck.ok if ok else lambda r, w, t: ck.violate(r, w, t, "C02.correction:%s:threshold" % f.pq))("C02.correction", f.loc(x), "%s: the renumbering threshold %s is the erased position %s" % (f.name, tv, E))
         ck.floor("vertex_core_thresholds", len(thr), 1)
